@@ -1,7 +1,7 @@
 //! edge driver: episodes that need an exact coincidence to manifest (equalities, whole-unit boundaries with
 //! fractional totals, a step taken in between two that usually follow each other). Every episode is a short
 //! real execution; TLC judges the traces with the same predicates as everywhere else.
-use crate::drv::{base_setup, pick, search_boundary, Recorder};
+use crate::drv::{asset_amount, base_setup, pick, search_boundary, Recorder};
 use rand::{rngs::StdRng, Rng, SeedableRng};
 use serde_json::{json, Value};
 
@@ -17,7 +17,7 @@ pub fn edge_driver(out: &str, seed: u64, n: u64) {
     let mut r = Recorder::new(&format!("{}/edge.trace", out), base_setup());
     let (mut nbk, mut nkill, mut nclose, mut nutil) = (0u64, 0u64, 0u64, 0u64);
     for k in 0..n {
-        match k % 9 {
+        match k % 10 {
             0 => {
                 // ---- exact wipe: the sole borrower drew every deposited token (or all but delta), no fees, no time (or a
                 // second), empty or tiny insurance; collateral made worthless; bankruptcy. Uncovered loss =, <, > deposits.
@@ -25,7 +25,7 @@ pub fn edge_driver(out: &str, seed: u64, n: u64) {
                 let x: u64 = *pick(&mut rng, &[1_000_000u64, 123_456_789, 7, 50_000_000_000]);
                 // (loss = deposits, deposits - 1, deposits - 2; insurance empty, a unit, half, all, more than the debt)
                 let combos: [(u64, u64); 8] = [(0, 0), (1, 0), (0, 1), (0, x.saturating_add(5)), (2, 0), (0, x / 2), (0, x.saturating_mul(3)), (1, x)];
-                let (delta, ins) = combos[((k / 9) % 8) as usize];
+                let (delta, ins) = combos[((k / 10) % 8) as usize];
                 let two_lenders = rng.gen_bool(0.4);
                 let mut extra = vec![];
                 plain_bank("D1", dec, "spl", "1", json!({"ir":{"orig_fee":"0"}}), &mut extra);
@@ -452,6 +452,51 @@ pub fn edge_driver(out: &str, seed: u64, n: u64) {
                 r.act(json!({"op":"purge","acct":second,"bank":"D1"}));
                 r.act(json!({"op":"pulse_health","acct":second}));
                 r.act(json!({"op":"close_bank","bank":"D1"}));
+            }
+            9 => {
+                // ---- all sixteen balance slots in use, one of them holding less than a share (a plain withdrawal of the
+                // principal after interest accrued), another one emptied but still active: a seventeenth position is refused
+                // whatever opens it (deposit, borrow, being the liquidator), and nothing else about the account changes
+                let mut extra = vec![];
+                for i in 1..=17u32 {
+                    let nm = format!("S{}", i);
+                    plain_bank(&nm, 6, "spl", "1", json!({"aw_init":"0.5","aw_maint":"0.6","ir":{"orig_fee":"0"}}), &mut extra);
+                    extra.push(json!({"op":"fund","user":"U1","mint":format!("M.S{}", i),"amount":"4000000000000"}));
+                    extra.push(json!({"op":"fund","user":"U9","mint":format!("M.S{}", i),"amount":"4000000000000"}));
+                }
+                extra.push(json!({"op":"fund","user":"U2","mint":"M.S2","amount":"4000000000000"}));
+                r.begin(&extra);
+                // S1: a borrower makes the deposit share value grow
+                r.act(json!({"op":"deposit","acct":"A1","bank":"S1","amount":1_000_000}));
+                r.act(json!({"op":"deposit","acct":"A2","bank":"S2","amount":100_000_000}));
+                r.act(json!({"op":"deposit","acct":"LP","bank":"S1","amount":50_000_000}));
+                r.act(json!({"op":"borrow","acct":"A2","bank":"S1","amount":20_000_000}));
+                for i in 2..=16u32 {
+                    r.act(json!({"op":"deposit","acct":"A1","bank":format!("S{}", i),"amount": 1000 + i as u64}));
+                }
+                r.act(json!({"op":"tick","dt": *pick(&mut rng, &[86_400i64, 2_592_000, 31_536_000])}));
+                r.act(json!({"op":"accrue","bank":"S1"}));
+                // (every whole unit of the balance: what stays is a fraction of a unit, i.e. less than one share)
+                let whole: u64 = asset_amount(&mut r, "A1", "S1").map(|v| v.floor().to_num::<u64>()).unwrap_or(1_000_000);
+                r.act(json!({"op":"withdraw","acct":"A1","bank":"S1","amount":whole}));
+                r.act(json!({"op":"pulse_health","acct":"A1"}));
+                for emptied in [false, true] {
+                    for op in ["deposit", "borrow"] {
+                        r.fork(&mut |r: &mut Recorder| {
+                            if emptied {
+                                r.act(json!({"op":"withdraw","acct":"A1","bank":"S2","amount":1002}));     // emptied, still active
+                            }
+                            r.act(json!({"op":op,"acct":"A1","bank":"S17","amount":500}));
+                            r.act(json!({"op":"pulse_health","acct":"A1"}));
+                            r.act(json!({"op":"withdraw","acct":"A1","bank":"S1","amount":0,"all":true}));
+                        });
+                    }
+                }
+                // after closing a slot properly the seventeenth bank fits
+                r.act(json!({"op":"close_balance","acct":"A1","bank":"S1"}));
+                r.act(json!({"op":"withdraw","acct":"A1","bank":"S2","amount":0,"all":true}));
+                r.act(json!({"op":"deposit","acct":"A1","bank":"S17","amount":500}));
+                r.act(json!({"op":"pulse_health","acct":"A1"}));
             }
             _ => {
                 // ---- a solvent account in a collateral bank whose collateral-value cap is lowered far below its deposits
